@@ -329,6 +329,14 @@ impl DirEntry {
     }
 }
 
+#[cfg(feature = "verif-hooks")]
+impl DirEntry {
+    /// Verification hook: public forwarder to the crate-private serialiser.
+    pub fn verif_serialize(&self, fat_type: FatType) -> [u8; OnDiskDirEntry::LEN] {
+        self.serialize(fat_type)
+    }
+}
+
 // ****************************************************************************
 //
 // End Of File
